@@ -31,6 +31,11 @@ theorem tokenManager_surface : tokenManagerSurface.map sig = tokenManagerExpecte
 
 theorem tokenManager_storage_no_alias : noAlias tokenManagerStorage = true ∧ keysNodup tokenManagerStorage = true := by decide
 
+/-- the storage mappers of the contract are exactly the fields the model's state has (a mapper the model does not know
+    is state the theorems do not cover; the harness emulates its absence on contracts deployed by earlier code: `wipe`) -/
+theorem tokenManager_storage_keys : tokenManagerStorage.map (·.key) = ["account_roles", "flow_in_amount", "flow_limit", "flow_out_amount", "implementation_type", "interchain_token_id", "interchain_token_service", "proposed_roles", "token_identifier"] := by decide
+
+
 end Axelar.Surface
 
 namespace Axelar.Surface
